@@ -131,6 +131,12 @@ func (f *sdFam) Setup(cfg M, rng *rand.Rand) {
 		a := f.c.Acct(l)
 		f.c.Fund(f.c.Ctx, a.Addr, sdk.NewCoins(sdk.NewInt64Coin("ujkl", 10_000)))
 	}
+	// a gauge in a second denomination, as a genesis payment gauge could hold (transactions only create ujkl gauges)
+	amt2 := geti0(cfg, "gauge2", 60)
+	g2 := f.c.App.StorageKeeper.NewGauge(f.c.Ctx, sdk.NewCoins(sdk.NewInt64Coin("uusd", amt2)), f.c.Ctx.BlockTime().Add(90*24*time.Hour))
+	if a2, err := stypes.GetGaugeAccount(g2); err == nil {
+		f.c.Fund(f.c.Ctx, a2, sdk.NewCoins(sdk.NewInt64Coin("uusd", amt2)))
+	}
 	f.labelGauges(f.c.Ctx)
 	f.base = f.c.Ctx
 }
@@ -257,7 +263,8 @@ func (f *sdFam) Apply(st M) M {
 	switch a {
 	case "block":
 		// gauge accounts may have been removed from the gauge list by the block itself: measure via label
-		before := f.c.Balances(f.ctx, []string{"ujkl"})["gauges"]["ujkl"]
+		b0 := f.c.Balances(f.ctx, []string{"ujkl", "uusd"})["gauges"]
+		before, before2 := b0["ujkl"], b0["uusd"]
 		h := f.ctx.BlockHeight() + 1
 		// a panic in BeginBlock halts the node: nothing of that block is committed
 		cctx, write := f.ctx.CacheContext()
@@ -271,8 +278,9 @@ func (f *sdFam) Apply(st M) M {
 			write()
 			f.ctx = f.ctx.WithBlockHeight(h).WithBlockTime(f.ctx.BlockTime().Add(f.step))
 		}
-		after := f.c.Balances(f.ctx, []string{"ujkl"})["gauges"]["ujkl"]
-		ev = M{"a": "block", "rel": before - after, "reward": h%f.par.C == 0, "ok": pan == nil, "x": x}
+		b1 := f.c.Balances(f.ctx, []string{"ujkl", "uusd"})["gauges"]
+		after, after2 := b1["ujkl"], b1["uusd"]
+		ev = M{"a": "block", "rel": before - after, "rel2": before2 - after2, "reward": h%f.par.C == 0, "ok": pan == nil, "x": x}
 		if pan != nil {
 			x["panic"] = fmt.Sprint(pan)
 		}
@@ -514,23 +522,24 @@ func (f *sdFam) Project() M {
 	for _, l := range f.provers {
 		keep[l] = true
 	}
-	bal := M{}
-	var other int64
-	for l, m := range f.c.Balances(f.ctx, []string{"ujkl"}) {
+	bal, bal2 := M{}, M{}
+	var other, other2 int64
+	for l, m := range f.c.Balances(f.ctx, []string{"ujkl", "uusd"}) {
 		if keep[l] {
-			bal[l] = m["ujkl"]
+			bal[l], bal2[l] = m["ujkl"], m["uusd"]
 		} else {
 			other += m["ujkl"]
+			other2 += m["uusd"]
 		}
 	}
-	bal["other"] = other
+	bal["other"], bal2["other"] = other, other2
 	if _, ok := bal["gauges"]; !ok {
-		bal["gauges"] = int64(0)
+		bal["gauges"], bal2["gauges"] = int64(0), int64(0)
 	}
 	pr := k.GetParams(f.ctx)
 	par := M{"I": pr.ProofWindow, "C": pr.CheckWindow, "cs": pr.ChunkSize, "fs": pr.AttestFormSize, "min": pr.AttestMinToPass, "price": pr.CollateralPrice}
 	return M{"files": files, "filesO": filesO, "proofs": proofs, "providers": providers, "collat": collat,
-		"attest": attest, "report": report, "bal": bal, "height": f.ctx.BlockHeight(), "par": par}
+		"attest": attest, "report": report, "bal": bal, "bal2": bal2, "height": f.ctx.BlockHeight(), "par": par}
 }
 
 // ---- random driver ----
